@@ -97,6 +97,13 @@ def _walk(ctx, rel, cls, q, tag="", **kw):
             node = [e[2] for e in w.events if e[0] == "unbound"][0]
             ctx.check(False, f"{q.split('.')[-1]}: every name a reading path uses is bound where it is read (a local no path has assigned / a name "
                              "nothing defines raises UnboundLocalError / NameError: that path decodes nothing)", node, w._c11_unbound)
+    if not hasattr(w, "_c11_stuck"):
+        w._c11_stuck = _stuck_loops(w.top.items)
+        if w._c11_stuck:
+            lp = w._c11_stuck[0]
+            ctx.check(False, f"{q.split('.')[-1]}: a loop that reads the file ends: its test depends on something the loop assigns or reads (here nothing "
+                             "the loop does can change its test - once entered it never stops, or it is never entered)", lp.node,
+                      {"loop test": repr(C.norm(lp.test, whole_values=False))[:300]})
     if not hasattr(w, "_c11_floats"):
         w._c11_floats = _float_amounts(w.top.items)
         if w._c11_floats:
@@ -1353,6 +1360,47 @@ def _stray_seeks(items):
             out += _stray_seeks(it[2]) + _stray_seeks(it[3])
         elif it[0] == "loop":
             out += _stray_seeks(it[1].items)
+    return out
+
+
+def _has_exit(items):
+    for it in items:
+        if it[0] == "exit":
+            return True
+        if it[0] == "if" and (_has_exit(it[2]) or _has_exit(it[3])):
+            return True
+        if it[0] == "loop" and any(x[0] == "exit" and x[1] in ("return", "raise") for x in _flat(it[1].items)):
+            return True
+    return False
+
+
+def _flat(items):
+    for it in items:
+        yield it
+        if it[0] == "if":
+            yield from _flat(it[2])
+            yield from _flat(it[3])
+        elif it[0] == "loop":
+            yield from _flat(it[1].items)
+
+
+def _stuck_loops(items):
+    """the `while` loops that consume from the file, have no way out but their test, and whose test nothing they do can change (it mentions
+    no local the loop assigns and nothing the loop reads): once entered they never end"""
+    out = []
+    for it in _flat(items):
+        if it[0] != "loop":
+            continue
+        lp = it[1]
+        if lp.kind != "while" or not _rat(lp.test) or C.norm(lp.test).is_const() or _has_exit(lp.items) or not C.tidy([x for x in _flat(lp.items) if x[0] in ("B", "L", "abs")]):
+            continue
+        changes = any(d[0] == "fn" and (d[1] in ("lv", "rd", "ln", "lns", "after", "tell", "fin", "item") and d[2] and not isinstance(d[2][0], str)
+                                          and _is_sub_frame(C._arg(d[2][0]), lp.frame)) for d in C.walk_atoms(lp.test))
+        # (a call in the test may give another answer each time - unless it is a text method of a value the loop does not change)
+        calls = any(d[0] == "fn" and d[1].startswith(("call:", "attr:")) and d[1] not in ("call:int", "call:len")
+                    and not (d[1].startswith("call:.") and d[1][6:] in K.STR_METHODS) for d in C.walk_atoms(lp.test))
+        if not changes and not calls:
+            out.append(lp)
     return out
 
 
